@@ -11,8 +11,12 @@ static void enumerateAll(const std::function<void(const Spec &)> &f0) {
   // 2^31, but width x vertical distance to the rows beyond the neighbouring one exceeds 2^31
   auto f = withMagnitudes(f0, 53, {{1, 9001, 11003}, {1, 30011, 20011}});
   std::vector<ParamAlt> pm = legalizeParamMenu();
+  long long histCounter = 0;
   auto withParams = [&](const Spec &s, bool all) {
     f(s);
+    bool anyFixed = false;
+    for (auto &cs : s.cells) anyFixed |= cs.fixed;
+    if (anyFixed && s.aux == 0 && histCounter++ % 3 == 0) { Spec h = s; h.aux = 2; f(h); }
     if (!all) return;
     for (auto &pa : pm) { Spec d = s; d.devs.push_back({pa.field, pa.value}); f(d); }
     for (int e : {1, 9}) { Spec d = s; d.effort = e; f(d); }
@@ -155,6 +159,19 @@ static vf::Verdicts eval(const Spec &s, vf::Ctx &ctx) {
   double ow = params.legalization.orderingWidth;
   std::string suffix = (ow < 0.0 || ow > 1.0) ? ":orderingWidth-outside-[0,1]" : "";
   Circuit c = build(s);
+  if (s.aux == 2) {
+    // history on the object: it starts with its fixed cells elsewhere (shifted, and turned where that changes the footprint),
+    // is legalized once, and is then brought to the placement under test through setSolution alone
+    Spec h = s;
+    for (auto &cs : h.cells)
+      if (cs.fixed) { cs.x += 2; cs.y += (cs.h > 1 ? 1 : 0); }
+    c = build(h);
+    guarded([&] { c.legalize(params); });
+    PlacementSolution sol;
+    for (auto &cs : s.cells) sol.emplace_back(cs.x, cs.y, (CellOrientation)cs.orient);
+    c.setSolution(sol);
+    ctx.count("placements_reached_through_a_history");
+  }
   if (s.aux == 1) {
     CallResult r = guarded([&] { c.legalize(params); });
     if (r.threw) { ctx.count("first_legalization_refused"); return out; }
@@ -183,7 +200,7 @@ static vf::Verdicts eval(const Spec &s, vf::Ctx &ctx) {
   int movable = 0;
   for (auto &cs : s.cells) movable += !cs.fixed;
   if (movable >= 2) ctx.nontrivial(hashSpec(s));
-  ctx.count(s.aux == 0 ? "constructed_placements" : "placements_from_legalization");
+  ctx.count(s.aux == 1 ? "placements_from_legalization" : "constructed_placements");
   return out;
 }
 
@@ -194,7 +211,7 @@ int main(int argc, char **argv) {
   c.property = "C11";
   c.level = "exploration";
   c.rule =
-      "(a) every legal placement of 1..3 (4) row-high cells (widths 1..3) constructed combinatorially in the free segments of every layout of the list (row heights 2 and 1, "
+      "(a) every legal placement (a third of those with fixed cells also reached through a history on the object: fixed cells elsewhere, one legalization, then setSolution) of 1..3 (4) row-high cells (widths 1..3) constructed combinatorially in the free segments of every layout of the list (row heights 2 and 1, "
       "with no / in-row / partial-height obstruction and a fixed non-obstruction cell), all cells of one polarity in {ANY,SAME,OPPOSITE,NW,SE} with the prescribed orientation; "
       "(b) every placement produced by Circuit::legalize itself from the tiny-circuit alphabet restricted to row-high cells (positions incl. outside/far, deviations of polarity, "
       "fixed cells, parameters); each x legalization parameter deviations (all of them on placements with <= 2 cells, thorough: on all); oracle: a second legalize leaves x, y and "
